@@ -11,6 +11,22 @@ CHECKS = {
  "C17": ("exploration", "complete enumeration of (offset,width) pairs and mask arguments + property-based testing of in-word select and helpers against bit-by-bit references, in three build configurations (portable and BMI2 select)",
          "read_int/write_int are executed for every (offset 0..191, width 1..64) with 9 value/background combinations and compared bit by bit (field and all other bits); select for every rank of structured and generated words under both the portable and the PDEP implementation; masks for all n; bit_len/reverse_low/rounding helpers against u128 arithmetic.",
          "Trusts the bit-by-bit reference loops; values and words are sampled (offset/width/mask spaces are complete); rounding helpers only on their documented non-overflowing domains.", "DESIGN.md §3 C17"),
+ "C02": ("exploration", "property-based testing against a sorted-set reference model that also covers universes up to 2^64-1 (proptest, width-directed generators) + complete small-scope enumeration",
+         "Sparse vectors built by 8 public routes from generated (n, positions) - directed at every low width 1..63, bucket edges, dense clusters that give the high bitvector long select superblocks, universes to 2^64-1 - are compared query by query with a binary-search model; all routes must give equal vectors; all subsets of universes up to 10 (13) elements are enumerated with every argument.",
+         "Trusts the sorted-set model; nearly empty sets are explored only where the bucket array (n/2^w bits) can be allocated (<= 2^27 bits); large universes are queried at edges/neighbourhoods/generated arguments.", "DESIGN.md §3 C02"),
+ "C03": ("exploration", "property-based testing against a run-list reference model (prefix sums, usize::MAX-long vectors) + complete small-scope enumeration",
+         "Run-length vectors built through the builder (runs split into adjacent pieces, unchecked variants, per-bit, with/without set_len) or by conversion are compared query by query and run by run (run_iter with offset/rank/rank_zero) with a run-list model, with generators directed at 1..22 code units per value, 1/8/9/10/100+ blocks, blocks closed early, a first block without unset bits, and lengths beyond 2^63.",
+         "Trusts the run-list model and the harness's block-packing simulation used only for class labels; long vectors are queried at run edges and sampled arguments.", "DESIGN.md §3 C03"),
+ "C04": ("exploration", "property-based testing against a naive Vec<u64> reference (positions per value, stable sort by reversed bits) + complete small-scope enumeration",
+         "Wavelet matrices from all five item types over widths 1..16 (core: 1..64), lengths 0/1/2^k/.., seven value distributions incl. single-symbol, missing symbols and outliers, are compared with a naive model for every (index, rank, value) incl. absent and out-of-alphabet values and extreme arguments; the core mapping is compared with the stable sort by reversed bits.",
+         "Trusts the naive model; alphabets limited to 2^16 for the matrix; vectors above 300 items use sampled indexes.", "DESIGN.md §3 C04"),
+ "C05": ("exploration", "model-based (stateful) property testing: generated operation histories interpreted against a Vec<bool> / (width, Vec<u64>) model with full state comparison after every step",
+         "Every step of every generated history over RawVector and IntVector is followed by a comparison of length, every backing word (so stale bits beyond the end are visible), count_ones, reads, and equality + byte-identical serialization with vectors rebuilt from the model by two other routes.",
+         "Trusts the bit-by-bit model; vectors stay small (<= ~25k bits / 300 items) so that complete comparison after each step is affordable; capacity is not asserted.", "DESIGN.md §3 C05"),
+ "C06": ("exploration", "round-trip property testing over values of every Serialize type (type-erased), concatenated streams, short-read readers",
+         "1..6 generated values of every serializable type (incl. all 8 support subsets, nested options, huge sparse universes, multisets) are written back to back; sizes must be exact, header+body = serialize, and sequential loading through a reader that returns short reads must give equal values that answer a fixed query plan identically and must consume exactly each value's bytes; file variants agree.",
+         "Equality is the library's own PartialEq plus a fixed query-plan digest; Option nesting to depth 2.", "DESIGN.md §3 C06"),
+
 }
 
 NOT_YET = "check not implemented yet in this revision of the framework (work in progress; see DESIGN.md for the planned design)"
